@@ -317,7 +317,7 @@ def vacuity_probe(scratch, unit_name, log=print, jobs=8):
     from concurrent.futures import ThreadPoolExecutor
     u = [x for x in X.load_units() if x.head["unit"] == unit_name][0]
     text, _ = X.build_unit(u, scratch.repo)
-    fns = [f for f in u.fns if f.header.strip() and "ensures" in f.header and not f.external_body]
+    fns = [f for f in u.fns if f.header.strip() and ("ensures" in f.header or "requires" in f.header) and not f.external_body]
     names = [f.name.split("::")[-1] for f in fns]
 
     def one(f):
@@ -328,8 +328,13 @@ def vacuity_probe(scratch, unit_name, log=print, jobs=8):
         at = text.find(hdr, mfn.start() if mfn else 0)
         if at < 0:
             return nm, None
-        e = text.find("ensures", at)
-        probe = text[:e + len("ensures")] + "\n        false," + text[e + len("ensures"):]
+        if "ensures" in hdr:
+            e = text.find("ensures", at)
+            probe = text[:e + len("ensures")] + "\n        false," + text[e + len("ensures"):]
+        else:
+            # a contract with preconditions only (its obligations are assertions in the body): add the clause
+            e = at + len(hdr)
+            probe = text[:e] + "\n        ensures\n            false,\n" + text[e:]
         path = os.path.join(scratch.dir, "verus_%s_vacuity_%s.rs" % (unit_name, nm))
         open(path, "w").write(probe)
         p = subprocess.run(["verus", path, "--output-json", "--time", "--rlimit", "20", "--multiple-errors", "1", "--num-threads", "2"],
